@@ -610,6 +610,27 @@ class SQLDataStore(datastore.DataStore):
         raise NotFoundError('No such study:', s_resource.name)
       original_study = study_pb2.Study.FromString(row.serialized_study)
 
+      # Split the trial-related metadata by Trial.
+      split_metadata = collections.defaultdict(list)
+      for md in trial_metadata:
+        split_metadata[md.trial_id].append(md)
+
+      # Obtain the original trials. It's an error to attach metadata to a Trial
+      # that doesn't exist (or to use an invalid trial id); check before
+      # anything is written so that a failed update stores nothing.
+      original_trials = {}
+      for trial_id in split_metadata:
+        trial_name = s_resource.trial_resource(trial_id).name
+        otq = sqla.select(self._trials_table)
+        otq = otq.where(self._trials_table.c.trial_name == trial_name)
+        row = self._connection.execute(otq).fetchone()
+        if not row:
+          raise NotFoundError('No such trial:', trial_name)
+        original_trials[trial_id] = (
+            trial_name,
+            study_pb2.Trial.FromString(row.serialized_trial),
+        )
+
       # Store Study-related metadata into the database.
       vz.metadata_util.merge_study_metadata(
           original_study.study_spec, study_metadata
@@ -620,26 +641,9 @@ class SQLDataStore(datastore.DataStore):
       usq = usq.values(serialized_study=original_study.SerializeToString())
       self._write_or_rollback(usq)
 
-      # Split the trial-related metadata by Trial.
-      split_metadata = collections.defaultdict(list)
-      for md in trial_metadata:
-        split_metadata[md.trial_id].append(md)
-
       # Now, we update one Trial at a time:
       for trial_id, md_list in split_metadata.items():
-        t_resource = s_resource.trial_resource(trial_id)
-        trial_name = t_resource.name
-
-        # Obtain original trial.
-        otq = sqla.select(self._trials_table)
-        otq = otq.where(self._trials_table.c.trial_name == trial_name)
-        row = self._connection.execute(otq).fetchone()
-        if not row:
-          self._connection.rollback()
-          raise NotFoundError('No such trial:', trial_name)
-        original_trial = study_pb2.Trial.FromString(row.serialized_trial)
-
-        # Update Trial.
+        trial_name, original_trial = original_trials[trial_id]
         vz.metadata_util.merge_trial_metadata(original_trial, md_list)
         utq = sqla.update(self._trials_table)
         utq = utq.where(self._trials_table.c.trial_name == trial_name)
